@@ -133,7 +133,7 @@ Qed.
 
 Lemma msg_fields_field_ok m : rust_typed m -> fields_valid m -> Forall field_ok (fields_of_msg m).
 Proof.
-  intros T [(Vi & Vd & Vs & Vm & Vp & Ve) Vsig]. unfold fields_of_msg. repeat rewrite Forall_app. repeat split.
+  intros T [(Vi & Vd & Vs & Vm & Vp & Ve) [Vsig Vlive]]. unfold fields_of_msg. repeat rewrite Forall_app. repeat split.
   - apply Forall_opt_field. intros n E. apply field_ok_reply_serial.
     pose proof (rt_rs m T) as R. rewrite E in R. cbn in R. unfold nonzero_u32 in R. lia.
   - apply Forall_opt_field. intros s E. rewrite E in Vi. now apply field_ok_interface.
@@ -177,13 +177,13 @@ Proof.
   - contradiction.
 Qed.
 
-Theorem msg_header_valid m serial hb : rust_typed m -> nonzero_u32 serial -> required_present m ->
+Theorem msg_header_valid m serial hb : rust_typed m -> nonzero_u32 serial ->
   marshal_msg m serial = Ok hb ->
   header_fields_ok (hdr_of_msg m serial) (fields_of_msg m)
   /\ hb = hdr_bytes (hdr_of_msg m serial) (fields_of_msg m)
           ++ zeros (padlen 8 (len (hdr_bytes (hdr_of_msg m serial) (fields_of_msg m)))).
 Proof.
-  intros T Hs Hreq H. destruct (marshal_msg_spec m serial hb T H) as (-> & Hv & Hni & Hw & He & Hl).
+  intros T Hs H. destruct (marshal_msg_spec m serial hb T H) as (-> & Hv & Hni & Hw & He & Hl & Hreq).
   split; [|reflexivity].
   unfold header_fields_ok. cbn [hdr_of_msg h_typ h_flags h_body_len h_serial h_be].
   split; [destruct (m_typ m); cbn; try lia; now elim Hni|].
@@ -194,13 +194,13 @@ Proof.
 Qed.
 
 (** the round trip through the library's own decoders *)
-Theorem roundtrip m serial hb nfds : rust_typed m -> nonzero_u32 serial -> required_present m ->
+Theorem roundtrip m serial hb nfds : rust_typed m -> nonzero_u32 serial ->
   marshal_msg m serial = Ok hb ->
   decode_message (hb ++ m_body m) nfds =
   Ok {| dm_hdr := hdr_of_msg m serial; dm_body := m_body m;
         dm_sig := if is_nil (m_body m) then [] else m_sig m; dm_nfds := nfds |}.
 Proof.
-  intros T Hs Hreq H. destruct (msg_header_valid m serial hb T Hs Hreq H) as [Hok ->].
+  intros T Hs H. destruct (msg_header_valid m serial hb T Hs H) as [Hok ->].
   set (h := hdr_of_msg m serial) in *. set (p := hdr_bytes h (fields_of_msg m)) in *.
   unfold decode_message. rewrite <- !app_assoc. unfold p at 1. rewrite (decode_hdr_bytes h _ _ Hok). cbn [bind fst snd]. fold p.
   rewrite next_message_spec by reflexivity. f_equal. f_equal.
@@ -219,14 +219,15 @@ Theorem conformant m serial hb : rust_typed m -> nonzero_u32 serial -> marshal_m
   /\ (m_nfds m <> 0 -> In (u32_field UNIX_FDS (m_nfds m)) (fields_of_msg m))
   /\ (m_nfds m = 0 -> ~ has UNIX_FDS (fields_of_msg m))
   /\ names_valid m /\ (m_body m <> [] -> validate_signature (m_sig m) = Ok tt)
-  /\ m_typ m <> MInvalid /\ len hb + len (m_body m) <= 2 ^ 27.
+  /\ m_typ m <> MInvalid /\ required_present m /\ (m_nfds m <> 0 -> m_live m = m_nfds m)
+  /\ len hb + len (m_body m) <= 2 ^ 27.
 Proof.
-  intros T Hs H. destruct (marshal_msg_spec m serial hb T H) as (E & [Hn Hsig] & Hni & Hw & He & Hl).
+  intros T Hs H. destruct (marshal_msg_spec m serial hb T H) as (E & [Hn [Hsig Hlive]] & Hni & Hw & He & Hl & Hreq).
   assert (Hb : len (m_body m) < 2 ^ 32) by (assert (2 ^ 27 < 2 ^ 32) by (apply N.pow_lt_mono_r; lia); lia).
   destruct (header_lengths m serial (proj2 Hs) Hb) as [L1 L2]. rewrite <- E in L1, L2.
   destruct (fields_signature m) as [S1 S2]. destruct (fields_unix_fds m) as [F1 F2].
   split; [|split; [exact L1|split; [exact L2|split; [exact Hw|split; [exact He|split; [exact S1|split; [exact S2|
-           split; [exact F1|split; [exact F2|split; [exact Hn|split; [exact Hsig|split; [exact Hni|exact Hl]]]]]]]]]]]].
+           split; [exact F1|split; [exact F2|split; [exact Hn|split; [exact Hsig|split; [exact Hni|split; [exact Hreq|split; [exact Hlive|exact Hl]]]]]]]]]]]]]].
   rewrite E. unfold spec_header, spec_header_unpadded. cbv zeta. rewrite <- app_assoc. do 2 f_equal.
   rewrite len_app. unfold fixed_part. rewrite !len_app, !len_enc. reflexivity.
 Qed.
